@@ -275,3 +275,15 @@ MUTANTS += [
     {"id": "C05-char-debug-of-encoded-str", "prop": "C05", "expect": "TEMPLATE/Char/",
      "edits": [(E, _CHAR_ARM, 'Char(c) => write!(out, "{:?}", c.encode_utf8(&mut [0u8; 4]))?,')]},
 ]
+# ---- the same through a named scratch buffer (`let mut utf8 = [0u8; 4]`): the binding stands for its initialiser only while it is
+# ---- used as nothing but the output buffer of encode_utf8
+MUTANTS += [
+    {"id": "C05-benign-char-encode-utf8-named-scratch", "prop": "C05", "benign": True,
+     "edits": [(E, _CHAR_ARM, "Char(c) => {\n                let mut utf8 = [0u8; 4];\n                out.write_all(c.encode_utf8(&mut utf8).as_bytes())?;\n            }")]},
+    {"id": "C05-benign-char-encode-utf8-named-scratch-hoisted-str", "prop": "C05", "benign": True,
+     "edits": [(E, _CHAR_ARM, "Char(c) => {\n                let mut scratch = [0u8; 4];\n                let encoded = c.encode_utf8(&mut scratch);\n                out.write_all(encoded.as_bytes())?;\n            }")]},
+    {"id": "C05-char-named-scratch-too-short", "prop": "C05", "expect": "TEMPLATE/Char/",
+     "edits": [(E, _CHAR_ARM, "Char(c) => {\n                let mut utf8 = [0u8; 3];\n                out.write_all(c.encode_utf8(&mut utf8).as_bytes())?;\n            }")]},
+    {"id": "C05-char-named-scratch-whole-buffer-written", "prop": "C05", "expect": "TEMPLATE/Char/",
+     "edits": [(E, _CHAR_ARM, "Char(c) => {\n                let mut utf8 = [0u8; 4];\n                c.encode_utf8(&mut utf8);\n                out.write_all(&utf8)?;\n            }")]},
+]
